@@ -1897,7 +1897,12 @@ impl<'a> Socket<'a> {
             // reason is TCP simultaneous open).
             (State::SynReceived, TcpControl::Rst) if self.listen_endpoint.port != 0 => {
                 tcp_trace!("received RST");
-                self.tuple = None;
+                // Forget everything the refused peer negotiated (MSS, window scaling,
+                // timestamps, sequence numbers, timers) just like `listen()` does, so that
+                // nothing of it leaks into the connection with the next peer.
+                let listen_endpoint = self.listen_endpoint;
+                self.reset();
+                self.listen_endpoint = listen_endpoint;
                 self.set_state(State::Listen);
                 return None;
             }
